@@ -2215,6 +2215,14 @@ def lex_tokens(line):
 
 # helper for parsing immediates since they occur in multiple places
 def parse_immediate(imm, line):
+    # modifiers are unpacked positionally: missing or extra pieces are a syntax error of this line
+    try:
+        return parse_immediate_tokens(imm, line)
+    except (ValueError, IndexError):
+        raise AssemblerError('malformed immediate: "{}"'.format(' '.join(imm)), line)
+
+
+def parse_immediate_tokens(imm, line):
     if len(imm) == 0:
         raise AssemblerError('empty immediate value', line)
 
@@ -3006,6 +3014,20 @@ def transform_pseudo_instructions(items, constants, labels):
             position += item.size()
             new_items.append(item)
             continue
+
+        # operands get unpacked positionally below: check their number up front
+        arg_counts = {
+            'nop': 0, 'ret': 0, 'fence': 0,
+            'j': 1, 'jal': 1, 'jr': 1, 'jalr': 1, 'call': 1, 'tail': 1,
+            'mv': 2, 'not': 2, 'neg': 2, 'seqz': 2, 'snez': 2, 'sltz': 2, 'sgtz': 2,
+            'beqz': 2, 'bnez': 2, 'blez': 2, 'bgez': 2, 'bltz': 2, 'bgtz': 2,
+            'bgt': 3, 'ble': 3, 'bgtu': 3, 'bleu': 3,
+        }
+        if item.name in arg_counts and len(item.args) != arg_counts[item.name]:
+            s = 'pseudo-instruction "{}" requires exactly {} args'.format(item.name, arg_counts[item.name])
+            raise AssemblerError(s, item.line)
+        if item.name == 'li' and len(item.args) < 2:
+            raise AssemblerError('pseudo-instruction "li" requires a register and a value', item.line)
 
         if item.name == 'nop':
             inst = ITypeInstruction(item.line, 'addi', rd='x0', rs1='x0', imm=Arithmetic('0'))
